@@ -1302,7 +1302,7 @@ class Interp:
         if self.cur is not None:
             for callee, nm, expr in self.cur.site_asserts:
                 base, _, ordn = callee.partition("#")
-                if q.endswith(base) and (not ordn or (node is not None and fr.depth == 0 and self.call_ordinal(fr, node, base.split(".")[-1]) == int(ordn))):
+                if q.endswith(base) and (not ordn or (node is not None and fr.depth == 0 and self._site_selected(fr, node, base, ordn))):
                     self._site_assert(st, f, args, kwargs, fr, nm, expr)
         if c is not None and (c.mode == "assumed" or self.cur is None or q not in self.cur.inline_calls) and not (
                 c.mode == "verify" and c is self.cur and False):
@@ -1524,6 +1524,13 @@ class Interp:
         s0 = st.fork()
         s0.heap = dict(st.old[0]); s0.frontier = st.old[1]; s0.ghost = dict(st.old[2])
         return self.spec_bool(s0, expr, env, old=st.old)
+
+    def _site_selected(self, fr, node, base, sel):
+        """`Callee#3` = the third call site in source order; `Callee#lit:X` = the call sites whose first argument is the literal X"""
+        if sel.startswith("lit:"):
+            a0 = node.args[0] if getattr(node, "args", None) else None
+            return isinstance(a0, ast.Constant) and str(a0.value) == sel[4:]
+        return self.call_ordinal(fr, node, base.split(".")[-1]) == int(sel)
 
     def call_ordinal(self, fr, node, attr):
         """1-based position (source order) of this call among the calls `<x>.<attr>(...)` of the function under verification"""
